@@ -472,7 +472,8 @@ def run_property(prop, tier: str, seed: int) -> int:
             for lo in range(0, len(items), chunk):
                 tasks.append(("enum", (pidx, lo, min(len(items), lo + chunk))))
         elif ph.kind == "gen":
-            shards = ph.shards or NWORKERS
+            # at most ~4,000 cases per task, so that a budget-limited run still collects what was finished
+            shards = ph.shards or max(NWORKERS, (ph.n + 3999) // 4000)
             shards = max(1, min(shards, ph.n))
             per = ph.n // shards
             for s in range(shards):
